@@ -131,7 +131,7 @@ def shapes(tier, seed):
         name_sets = [[], [1], [3], [2, 1], [1, 3]] + ([[1, 2, 1]] if q else [[1, 2, 1], [3, 3, 3], [1, 1, 1, 1], [2, 1, 1, 1, 1]])
         for names in name_sets:
             for nc in (0, 1, 2):
-                if nc == 2 and len(names) >= 3 and q:
+                if nc == 2 and q and (len(names) >= 3 or names == [1, 3]):
                     continue
                 nparts = 6 if (nc == 2 and len(names) >= 2) else (2 if nc == 2 and names else 1)
                 for i in range(nparts):
@@ -145,14 +145,15 @@ def shapes(tier, seed):
         for nc in ((0, 1, 2) if q else (0, 1, 2, 3)):
             out.append({'h': 'stat', 'impl': impl, 'cuts': nc})
         # fragmented transport reads (one short read anywhere, incl. inside the 24-byte packet headers)
-        out.append({'h': 'stat', 'impl': impl, 'cuts': 1, 'frag': 1, 'max_paths': 200000})
+        out.append({'h': 'stat', 'impl': impl, 'cuts': 0, 'frag': 1, 'max_paths': 200000})
         out.append({'h': 'list', 'impl': impl, 'names': [2, 1], 'cuts': 0, 'frag': 1, 'max_paths': 200000})
-        for i in range(3 if q else 6):
-            out.append({'h': 'list', 'impl': impl, 'names': [1], 'cuts': 1, 'frag': 1, 'max_paths': 200000, 'part': [i, 3 if q else 6]})
+        out.append({'h': 'list', 'impl': impl, 'names': [1], 'cuts': 0, 'frag': 2, 'max_paths': 200000})
         if not q:
+            out.append({'h': 'stat', 'impl': impl, 'cuts': 1, 'frag': 1, 'max_paths': 400000})
+            for i in range(6):
+                out.append({'h': 'list', 'impl': impl, 'names': [1], 'cuts': 1, 'frag': 1, 'max_paths': 400000, 'part': [i, 6]})
             for i in range(8):
                 out.append({'h': 'list', 'impl': impl, 'names': [2, 1], 'cuts': 1, 'frag': 1, 'max_paths': 400000, 'part': [i, 8]})
-        out.append({'h': 'list', 'impl': impl, 'names': [1], 'cuts': 0, 'frag': 2, 'max_paths': 200000})
         # an operation cut short by the device, then another one on the same object
         for first, second, cut in (('list', 'list', 27), ('list', 'list', 5), ('stat', 'stat', 9), ('list', 'stat', 30), ('stat', 'list', 3)):
             for rc in (False, True):
